@@ -430,6 +430,12 @@ void run_with(OrcProgram *prog, OrcCode *code, const ProgMeta &meta, RunMode mod
     case RUN_EXEC: orc_executor_run(ex); break;
     case RUN_EMULATE: orc_executor_emulate(ex); break;
     case RUN_BACKUP: orc_executor_run_backup(ex); break;
+    case RUN_DIRECT: {
+      // what every orcc-generated wrapper does: func = c->exec (or p->code_exec); func (ex);
+      OrcExecutorFunc f = prog ? (OrcExecutorFunc)prog->code_exec : code->exec;
+      f(ex);
+      break;
+    }
   }
   for (int i = 0; i < 4; i++) d.acc[i] = ex->accumulators[i];
 }
